@@ -258,6 +258,14 @@ theorem dec_drop (attr : Bool) : ∀ (k : Nat) (s : List Char), dec attr k s = d
     | nil => simp [dec]
     | cons c s => simp only [dec, List.drop_succ_cons]; exact ih s
 
+theorem dec_ref (attr : Bool) (s : List Char) (us : List DU) (k : Nat) (h : matchRef attr s = some (us, k)) :
+    dec attr 0 ('&' :: s) = us ++ dec attr 0 (s.drop k) := by
+  rw [dec]; simp only [if_true, h]; rw [dec_drop]
+
+theorem dec_noref (attr : Bool) (s : List Char) (h : matchRef attr s = none) :
+    dec attr 0 ('&' :: s) = .lit '&' :: dec attr 0 s := by
+  rw [dec]; simp only [if_true, h]
+
 /-! ## `escapeAttrVal` -/
 open Verif.Model.HtmlAttr in
 theorem escapeQuote_not_mem (q : Char) (ent a : List Char) (h : q ∉ a) : escapeQuote q ent a = a := by
